@@ -299,6 +299,68 @@ pub fn run_pools(ctx: &mut Ctx) {
     });
 }
 
+/// Time functions on a grid: parse_time / parse_time_with_zone on every combination of 7 years,
+/// 7 dates, 5 times of day, 8 fractions / 7 zones written in the three numeric layouts the
+/// reference decides, and format_time on 16 instants x every format of the pool.
+pub struct C04Times;
+impl Check for C04Times {
+    type Case = Case04;
+    fn name(&self) -> &'static str {
+        "C04.times"
+    }
+    fn cases(&self, _t: Tier) -> u64 {
+        0
+    }
+    fn strategy(&self, _t: Tier) -> BoxedStrategy<Case04> {
+        arb_case04(1)
+    }
+    fn check(&self, c: &Case04) -> CaseResult {
+        C04Eval.check(c)
+    }
+}
+
+pub fn run_times(ctx: &mut Ctx) {
+    const YEARS: [i32; 7] = [1970, 1999, 2000, 2023, 2024, 2038, 2100];
+    const DATES: [(u32, u32); 7] = [(1, 1), (2, 28), (2, 29), (3, 1), (12, 31), (6, 15), (12, 3)];
+    const TIMES: [(u32, u32, u32); 5] = [(0, 0, 0), (23, 59, 59), (13, 51, 55), (12, 0, 0), (0, 0, 1)];
+    const FRACS: [&str; 8] = ["", ".5", ".25", ".360", ".360367", ".000001", ".999999", ".123456789"];
+    const ZONES: [&str; 7] = ["+0000", "+0500", "-0330", "+1400", "-1200", "+0545", "-0001"];
+    const INSTANTS: [&str; 16] = ["0", "1", "59", "60", "3599", "86399", "86400", "951782400", "951868800", "1701611515", "2147483647", "2147483648", "4102444799", "4102444800", "1.0", "68169600"];
+    let fmts = crate::pools::pool_lits(TimeFmt);
+    let n_plain = (YEARS.len() * DATES.len() * TIMES.len() * FRACS.len()) as u64;
+    let n_zone = (YEARS.len() * DATES.len() * TIMES.len() * ZONES.len()) as u64;
+    let n_fmt = (INSTANTS.len() * fmts.len()) as u64;
+    let total = n_plain + n_zone + n_fmt;
+    let space = format!("parse_time: {} date-times x 8 fractions; parse_time_with_zone: {} date-times x 7 zones; format_time: 16 instants x {} formats", YEARS.len() * DATES.len() * TIMES.len(), YEARS.len() * DATES.len() * TIMES.len(), fmts.len());
+    run_enum(ctx, "C04.times", total, &space, |idx| {
+        let pick = |mut r: u64| {
+            let y = YEARS[(r % 7) as usize];
+            r /= 7;
+            let (m, d) = DATES[(r % 7) as usize];
+            r /= 7;
+            let (hh, mi, ss) = TIMES[(r % 5) as usize];
+            r /= 5;
+            (y, m, d, hh, mi, ss, r)
+        };
+        let e = if idx < n_plain {
+            let (y, m, d, hh, mi, ss, r) = pick(idx);
+            let frac = FRACS[(r % 8) as usize];
+            let fm = if frac.is_empty() { "\"%Y-%m-%dT%H:%M:%S\"" } else { "\"%Y-%m-%dT%H:%M:%S%.f\"" };
+            Expr::call("parse_time", vec![Expr::Lit(format!("\"{:04}-{:02}-{:02}T{:02}:{:02}:{:02}{}\"", y, m, d, hh, mi, ss, frac)), Expr::Lit(fm.to_string())])
+        } else if idx < n_plain + n_zone {
+            let (y, m, d, hh, mi, ss, r) = pick(idx - n_plain);
+            let z = ZONES[(r % 7) as usize];
+            Expr::call("parse_time_with_zone", vec![Expr::Lit(format!("\"{:04}-{:02}-{:02} {:02}:{:02}:{:02} {}\"", y, m, d, hh, mi, ss, z)), Expr::Lit("\"%Y-%m-%d %H:%M:%S %z\"".to_string())])
+        } else {
+            let j = idx - n_plain - n_zone;
+            Expr::call("format_time", vec![Expr::Lit(INSTANTS[(j % 16) as usize].to_string()), Expr::Lit(fmts[(j / 16) as usize].clone())])
+        };
+        let case = Case04 { e, vars: vec![], macros: vec![], priors: vec![], inputs: vec!["null".to_string()], spell: Spell { alias: idx % 2 == 1, sep: (idx % 3) as u8, sugar: false, pad: false, seed: idx } };
+        let res = C04Eval.check(&case);
+        (Box::new(move || serde_json::to_value(&case).unwrap()), res)
+    });
+}
+
 /// Extractor paths over member names of every shape the path syntax admits (anything but
 /// whitespace, controls and `. , = ( ) " [ ] { } #`): non-ASCII names, names with `- _ : @ / ^ & ' +`,
 /// digits; nested, through list indices, from inside a lambda with `^`.
@@ -432,15 +494,16 @@ pub fn run_negation(ctx: &mut Ctx) {
 }
 
 pub fn run_all(ctx: &mut Ctx) {
-    ctx.rule = "expressions whose root is one of the 108 pure functions (stratified: each function and each of its signatures equally often), depth 1, 3 or 5, type-directed arguments with 3/16 ill-typed, boundary-biased sizes (N = size-1, size, size+1, 0), literals of all six types incl. empty/singleton collections and non-ASCII strings, extractors . .k #i ^, :var, @macro (--set), /name/ (earlier selections), printed with canonical names or aliases and space/comma separators x 1..3 inputs (schema records with absent and wrong-typed fields, or arbitrary values). Oracle: the reference evaluator written from the function documentation; unspecified points (string length unit for non-ASCII, order of different objects, tail, float indices, empty separators, ...) are not judged, floating-point results within relative 1e-12, member order of records synthesised by entries/indexed/fold/zip/cross not compared. non-trivial = at least one input was judged (expected value or expected nothing). C04.pools: every function signature called directly with literal arguments from wide per-kind pools (harness/src/pools.rs: 77 numbers incl. 1e-300, 2^53+-1, 2^63, 2^64-1; 58 strings incl. regex metacharacters and 65-byte strings with a common 64-byte prefix; 67 patterns; lists of 21, 33 and 40 elements; objects that differ in member order; lambda bodies that return nothing for some elements), the whole product when it is below the cap (1500 quick, 60000 thorough per signature), a seeded sample otherwise. C04.paths: extractor paths (.k, .k1.k2, .k#1.k, ^.k1.k2 inside a lambda) over all ordered pairs of 25 member names of every shape the path syntax admits (non-ASCII, punctuation, digits); same oracle. C04.negation: != is the negation of = (and symmetric) on all pairs of a value pool, also where the value of = itself is left open; the same for \"=\" / \"!=\". C04.nas_sort: the number-as-string sort and its three aliases on up to 160 elements whose keys come from 16 value classes with several spellings each; oracle: stable sort by exact decimal value, elements without a key first (the documented example)".into();
+    ctx.rule = "expressions whose root is one of the 108 pure functions (stratified: each function and each of its signatures equally often), depth 1, 3 or 5, type-directed arguments with 3/16 ill-typed, boundary-biased sizes (N = size-1, size, size+1, 0), literals of all six types incl. empty/singleton collections and non-ASCII strings, extractors . .k #i ^, :var, @macro (--set), /name/ (earlier selections), printed with canonical names or aliases and space/comma separators x 1..3 inputs (schema records with absent and wrong-typed fields, or arbitrary values). Oracle: the reference evaluator written from the function documentation; unspecified points (string length unit for non-ASCII, order of different objects, tail, float indices, empty separators, ...) are not judged, floating-point results within relative 1e-12, member order of records synthesised by entries/indexed/fold/zip/cross not compared. non-trivial = at least one input was judged (expected value or expected nothing). C04.pools: every function signature called directly with literal arguments from wide per-kind pools (harness/src/pools.rs: 77 numbers incl. 1e-300, 2^53+-1, 2^63, 2^64-1; 58 strings incl. regex metacharacters and 65-byte strings with a common 64-byte prefix; 67 patterns; lists of 21, 33 and 40 elements; objects that differ in member order; lambda bodies that return nothing for some elements), the whole product when it is below the cap (1500 quick, 60000 thorough per signature), a seeded sample otherwise. C04.paths: extractor paths (.k, .k1.k2, .k#1.k, ^.k1.k2 inside a lambda) over all ordered pairs of 25 member names of every shape the path syntax admits (non-ASCII, punctuation, digits); same oracle. C04.times: parse_time / parse_time_with_zone over a grid of 245 date-times x 8 fractions / 7 zones in the three layouts the reference decides, format_time over 16 instants x every format of the pool. C04.negation: != is the negation of = (and symmetric) on all pairs of a value pool, also where the value of = itself is left open; the same for \"=\" / \"!=\". C04.nas_sort: the number-as-string sort and its three aliases on up to 160 elements whose keys come from 16 value classes with several spellings each; oracle: stable sort by exact decimal value, elements without a key first (the documented example)".into();
     ctx.assumptions = vec!["the reference evaluator (harness/src/eval.rs) states the documentation correctly; a disagreement is first treated as a possible harness error".into()];
     C04Eval.run(ctx);
     run_pools(ctx);
     run_paths(ctx);
+    run_times(ctx);
     run_negation(ctx);
     crate::p07::C07NasSort.run(ctx);
 }
 
 pub fn checks() -> Vec<Box<dyn DynCheck>> {
-    vec![Box::new(C04Eval), Box::new(C04Pools), Box::new(C04Paths), Box::new(C04Negation), Box::new(crate::p07::C07NasSort)]
+    vec![Box::new(C04Eval), Box::new(C04Pools), Box::new(C04Paths), Box::new(C04Times), Box::new(C04Negation), Box::new(crate::p07::C07NasSort)]
 }
